@@ -212,12 +212,17 @@ class Codec:
             logging.error(f"*** BodyLength missing or not 2nd field *** [{tag}]: {msg}")
             assert silent, "2nd tag must be BodyLength"
             return (None, skip_length, None)
-        if not (value.isascii() and value.isdigit()):
+        try:
+            body_length = int(value) if value.isascii() and value.isdigit() else None
+        except ValueError:
+            # more digits than int() converts (sys.set_int_max_str_digits)
+            body_length = None
+        if body_length is None:
             assert silent, f"BodyLength is not a number {msg}"
             return (None, skip_length, None)
 
         if end_idx == -1:
-            msg_length = len(msg[0]) + len(msg[1]) + len("10=000") + 3 + int(value)
+            msg_length = len(msg[0]) + len(msg[1]) + len("10=000") + 3 + body_length
             if msg_length > len(rawmsg) - valid_idx:
                 # message looks incomplete
                 assert silent, "incomplete message"
